@@ -74,6 +74,9 @@ pub fn e1_spec(id: &str, tier: &str) -> Option<Spec> {
                         v.push(progs::with_durs(p.clone(), d0, d1, dc));
                     }
                 }
+                for (d0, d1, dc) in [(High, High, High), (High, Low, High), (Medium, High, High)] {
+                    v.push(progs::dur_struct(d0, d1, dc));
+                }
                 v
             },
             depth: 4,
